@@ -79,10 +79,21 @@ class Coin:
     def __repr__(s): return "Coin(%r, %r)" % (s.value, s.name)
 
 
+class Countdown:
+    """a student class that can be iterated but has no length (list()/tuple()/sorted() ask for a length hint first)"""
+
+    def __init__(s, n):
+        s.n = n
+
+    def __iter__(s):
+        return iter(range(s.n, 0, -1))
+
+
 VALS = {
     'int': [7, -2, 0], 'float': [2.5, float('nan'), -0.5], 'bool': [True, False], 'str': ['ab', '', '%d'],
     'list': [[1, 2], []], 'tuple': [(1, 2), ()], 'dict': [{'a': 1}, {'a': 2, 'b': 3}], 'set': [{1, 2}, {2, 3}],
     'none': [None], 'complex': [1 + 2j], 'full': [Full(3)], 'ni': [NI()], 'onlylt': [OnlyLt(1)], 'coin': [Coin(10), Coin(0)],
+    'iteronly': [Countdown(3)],
 }
 MORE = {'int': [255, 1], 'float': [float('inf'), 1e-9], 'str': ['a b', 'AB'], 'list': [[[1], 'x'], [2, 1]], 'tuple': [(2,), ('a', 1)],
         'dict': [{}, {1: 'one'}], 'set': [set(), {'a'}], 'frozenset': [frozenset({1, 2})], 'bytes': [b'ab'], 'range': [range(3)],
@@ -148,6 +159,8 @@ def same(a, b):
             return b != b
         if isinstance(a, (Full, OnlyLt)):
             return a.v == b.v or (a.v != a.v and b.v != b.v)
+        if isinstance(a, Countdown):
+            return a.n == b.n
         if isinstance(a, Coin):
             return repr((_deep_unwrap(a.value), a.name)) == repr((_deep_unwrap(b.value), b.name))
         return a == b or repr(a) == repr(b)
